@@ -15,10 +15,12 @@ import (
 
 	"github.com/sirupsen/logrus"
 	"github.com/taskctl/taskctl/pkg/runner"
+	"github.com/taskctl/taskctl/pkg/scheduler"
 	"github.com/taskctl/taskctl/pkg/task"
 	"pgregory.net/rapid"
 
 	"verif/harness/drv"
+	"verif/harness/hook"
 )
 
 func TestMain(m *testing.M) {
@@ -34,13 +36,14 @@ type Cmd struct {
 
 // Case is one task with a timeout.
 type Case struct {
-	TimeoutMs int   `json:"timeout_ms"`
-	Before    []Cmd `json:"before,omitempty"`
-	Cmds      []Cmd `json:"cmds"`
-	After     []Cmd `json:"after,omitempty"`
-	Allow     bool  `json:"allow"`
-	NVar      int   `json:"nvar,omitempty"`    // variations of the task (0 = none)
-	OverAt    int   `json:"over_at,omitempty"` // the variation in which over-runners over-run (they are instant in the others)
+	TimeoutMs int    `json:"timeout_ms"`
+	Before    []Cmd  `json:"before,omitempty"`
+	Cmds      []Cmd  `json:"cmds"`
+	After     []Cmd  `json:"after,omitempty"`
+	Allow     bool   `json:"allow"`
+	NVar      int    `json:"nvar,omitempty"`    // variations of the task (0 = none)
+	OverAt    int    `json:"over_at,omitempty"` // the variation in which over-runners over-run (they are instant in the others)
+	Via       string `json:"via,omitempty"`     // "" = TaskRunner.Run, "scheduler" = the task is the only stage of a pipeline
 }
 
 func (c Case) canon() string { b, _ := json.Marshal(c); return string(b) }
@@ -191,7 +194,17 @@ func runCase(c Case, root string, scale int) (err error, timing bool) {
 	bound := e.budget + time.Duration(scale)*1500*time.Millisecond
 	done := make(chan error, 1)
 	start := time.Now()
-	go func() { done <- r.Run(tk) }()
+	run := func() error { return r.Run(tk) }
+	if c.Via == "scheduler" {
+		g, gerr := scheduler.NewExecutionGraph(&scheduler.Stage{Name: "t", Task: tk})
+		if gerr != nil {
+			return gerr, false
+		}
+		sd := scheduler.NewScheduler(r)
+		hook.SetPause(sd, 2*time.Millisecond)
+		run = func() error { return sd.Schedule(g) }
+	}
+	go func() { done <- run() }()
 	var runErr error
 	select {
 	case runErr = <-done:
@@ -221,6 +234,9 @@ func runCase(c Case, root string, scale int) (err error, timing bool) {
 	}
 	if (runErr != nil) != e.failed {
 		return fmt.Errorf("Run returned %v, want failed=%v (allow_failure=%v does not excuse a timeout)", runErr, e.failed, c.Allow), false
+	}
+	if tk.Timeout == nil || *tk.Timeout != T {
+		return fmt.Errorf("the task's timeout setting changed during the run: %v, was %v", tk.Timeout, T), false
 	}
 	if tk.Errored != e.errored {
 		return fmt.Errorf("Errored=%v, want %v", tk.Errored, e.errored), false
@@ -323,6 +339,9 @@ func record(c Case) {
 			nt = true
 		}
 	}
+	if c.Via != "" {
+		cls = append(cls, "via="+c.Via)
+	}
 	drv.Eval(cls...)
 	if nt {
 		drv.NonTrivial(c.canon())
@@ -354,6 +373,9 @@ func TestRandom(t *testing.T) {
 		if rapid.IntRange(0, 2).Draw(rt, "with-variations") == 0 {
 			c.NVar = rapid.IntRange(2, 3).Draw(rt, "nvar")
 			c.OverAt = rapid.IntRange(0, c.NVar-1).Draw(rt, "over-at")
+		}
+		if rapid.IntRange(0, 2).Draw(rt, "as-stage") == 0 {
+			c.Via = "scheduler"
 		}
 		drv.Sample(c)
 		decide(rt, "random", c, root)
@@ -409,6 +431,13 @@ func TestMatrix(t *testing.T) {
 		cases = append(cases, b, a)
 	}
 	cases = append(cases, Case{TimeoutMs: 100, Cmds: []Cmd{{"instant"}, {"instant"}, {"instant"}}})
+	// the same task as the only stage of a pipeline
+	for _, kind := range []string{"sleep", "busy"} {
+		cases = append(cases, Case{TimeoutMs: 300, Via: "scheduler", Cmds: []Cmd{{"instant"}, {kind}, {"instant"}}})
+		cases = append(cases, Case{TimeoutMs: 300, Via: "scheduler", Allow: true, Cmds: []Cmd{{kind}}})
+		cases = append(cases, Case{TimeoutMs: 300, Via: "scheduler", Before: []Cmd{{kind}}, Cmds: []Cmd{{"instant"}}})
+	}
+	cases = append(cases, Case{TimeoutMs: 500, Via: "scheduler", Cmds: []Cmd{{"part"}, {"part"}, {"part"}}})
 	for i, c := range cases {
 		if i%nsh != idx {
 			continue
